@@ -240,6 +240,22 @@ CHECKS['C14'] = {
     ],
 }
 
+CHECKS['C15'] = {
+    'level': 'exploration',
+    'technique': 'differential property testing: patterns printed from a generated AST over the documented constructs are matched by StringMatcher and by an independent Thompson-NFA reference that only sees the AST; escape-law, numeric-range and uniqueness-law checks on generated strings',
+    'level_text': ('Generated (pattern AST, subjects) search: subjects are produced by walking the AST (guaranteed matches), mutating a match (near misses) and at random; StringMatcher::Match must equal the reference on every subject; '
+                   'IsPatternUnique and IsPatternListOfUniqueValues must be consistent with what actually matched; EscapeRegexTokens(t) must match t and no mutation of t; leading <a-b,c-> range lists must match exactly the decimal integers in range. Held = no disagreement on everything generated.'),
+    'level_note': ('Trusted: the NFA reference over the AST (it never sees the pattern text). Sound alphabet: literals from alnum . + - _ : space, every metacharacter as an escaped literal (escaped exactly where IsRegexToken says), two non-ASCII bytes; class contents alnum and ranges. '
+                   'Metacharacters inside [...] are generated only for the known finding F14 (translation not bracket-aware).'),
+    'rule': ('Byte-decoded cases: 6/8 AST patterns (<= 3 comma parts x <= 4 nodes, nesting 2, optional leading ~) with 8 subjects each, 1/8 escape law on arbitrary byte strings, 1/8 numeric range lists. '
+             'Non-trivial: pattern has >= 2 constructs and the subject set contains both a match and a non-match (range lists: both; escape law: the string contains a metacharacter). Distinct: hash of the pattern text.'),
+    'assumptions': ['subjects for range patterns are canonical decimal integers or purely alphabetic strings'],
+    'targets': [
+        {'name': 'c15_patterns', 'src': ['harness/C15_patterns.cpp'], 'quick_n': 3000000, 'thorough_n': 40000000, 'maxlen': 300, 'min_nontrivial': 300000, 'timeout_is_violation': False,
+         'class_floors': {'mode_ast_patterns': 500000, 'mode_escape_law': 200000, 'mode_numeric_ranges': 200000, 'case_negated': 100000, 'case_comma_list': 200000}},
+    ],
+}
+
 
 def setup():
     t0 = time.time()
